@@ -63,8 +63,10 @@ impl<K, N, E> Node<K, N, E> {
     pub fn value(&self) -> (r: &N)
         ensures *r == self.val()
     { unimplemented!() }
+}
+impl<K, N, E> Clone for Node<K, N, E> {
     #[verifier::external_body]
-    pub fn clone(&self) -> (r: Self)
+    fn clone(&self) -> (r: Self)
         ensures r == *self
     { unimplemented!() }
 }
@@ -83,3 +85,17 @@ pub open spec fn ev<K, N, E>(s: Seq<(WeakNode<K, N, E>, E)>) -> Seq<(K, E)> {
 pub proof fn axiom_vec_len_isize<K, N, E>(v: &Vec<(WeakNode<K, N, E>, E)>)
     ensures v@.len() <= isize::MAX
 {}
+
+// error payloads built with format! (R7b)
+#[verifier::external_body]
+#[derive(Debug)]
+pub struct ErrMsg { _p: core::marker::PhantomData<u8> }
+#[verifier::external_body]
+pub fn err_msg() -> (e: ErrMsg) { unimplemented!() }
+
+impl<K, N, E> Node<K, N, E> {
+    // A node object whose adjacency cell is not modelled: `Node::new` with a key that already
+    // denotes a cell of this heap (deserialising a document with a repeated key) yields such a
+    // node. Contracts that touch adjacency require !detached().
+    pub uninterp spec fn detached(&self) -> bool;
+}
